@@ -9,6 +9,8 @@
 #include "Simbody.h"
 #include "hcommon.h"
 #include <algorithm>
+#include <unistd.h>
+#include <sys/wait.h>
 using namespace SimTK;
 
 struct UniC { int Nk; double sign; std::vector<int> Fk; int type; double mu; };
@@ -170,6 +172,7 @@ static Prob genProblem(vh::Rng& g, bool forPlus, bool uncondOnly, bool withD, in
     return P;
 }
 
+static int g_plusJudged = 0, g_pgsJudged = 0, g_compJudged = 0, g_records = 0;
 static void emitConds(const Run& R) {
     std::ostringstream os; os << "O cond";
     for (int c : R.uniCond) os << ' ' << c; os << " |";
@@ -183,13 +186,13 @@ static void emitConds(const Run& R) {
 static void pgsRecord(const Prob& P, const std::string& tag) {
     PGSImpulseSolver pgs(1e-3); pgs.setConvergenceTol(P.tol); pgs.setMaxIterations(P.maxIters);
     Run R = runSolve(pgs, P);
-    vh::Line in = vh::I("pgs"); encode(in, P); in.emit();
+    vh::Line in = vh::I("pgs"); encode(in, P); in.emit(); ++g_records;
     if (!R.exc.empty()) { std::puts("O conv EXC"); vh::P("no_exception", "pgs." + tag + ".exception", 1, 0); return; }
     std::printf("O conv %d\n", R.conv ? 1 : 0);
     vh::Line op = vh::O("pi"); for (double x : R.pi) op.d(x); op.emit();
     vh::Line ov = vh::O("verr"); for (double x : R.verrOut) ov.d(x); ov.emit();
     emitConds(R);
-    vh::D("pgs." + tag + (R.conv ? ".converged" : ".notconverged"));
+    vh::D("pgs." + tag + (R.conv ? ".converged" : ".notconverged")); ++g_pgsJudged;
     std::string key = "pgs." + tag;
     inequalityPredicates(key, P, R, 4e-16, 1e-14);
     // reported conditions are consistent with the impulses
@@ -218,11 +221,55 @@ static void pgsRecord(const Prob& P, const std::string& tag) {
         worst = std::max(worst, std::fabs((double)s - R.verrOut[r])); sc = std::max(sc, (double)mag);
     }
     vh::P("verr_consistent", key + ".verr", worst / sc, 1e-13);
+    // complementarity (converged runs): the resulting constraint-space velocity verrOut = rhs - (A+D) pi is consistent with the
+    // condition each contact reports.  The convergence test bounds the RMS over p rows of the residuals measured before each
+    // row's last update (|er| <= tol*sqrt(p)); the last sweep moves them by a modest factor (as for bilateral_solves).
+    if (R.conv && !P.part.empty() && P.tol <= 1e-6) {
+        const double lim = P.tol * std::sqrt((double)P.part.size());
+        double act = 0, off = 0, roll = 0, slide = 0;
+        for (size_t k = 0; k < P.uni.size(); ++k) {
+            const UniC& c = P.uni[k];
+            if (c.type == 2) {
+                if (R.uniCond[k] == 1) act = std::max(act, std::fabs(R.verrOut[c.Nk]) / lim);                 // UniActive: verr_N = 0
+                if (R.uniCond[k] == 0) off = std::max(off, -c.sign * R.verrOut[c.Nk] / lim);                  // UniOff: separating, sign*verr_N >= 0
+            }
+            if (c.type != 0 && !c.Fk.empty()) {
+                if (R.fricCond[k] == 3) roll = std::max(roll, normOf(R.verrOut, c.Fk) / lim);                 // Rolling: verr_F = 0
+                if (R.fricCond[k] == 1) { double d = 0; for (int i : c.Fk) d += R.pi[i] * R.verrOut[i];      // Sliding: friction multiplier along the slip
+                    slide = std::max(slide, -d / (lim * std::max(normOf(R.pi, c.Fk), 1e-300))); }
+            }
+        }
+        for (size_t k = 0; k < P.bnd.size(); ++k) {
+            double v = R.verrOut[P.bnd[k].ix];
+            if (R.bndCond[k] == 2) act = std::max(act, std::fabs(v) / lim);            // Engaged: equation enforced
+            if (R.bndCond[k] == 4) off = std::max(off, -v / lim);                      // SlipHigh: wanted to go higher (residual >= 0)
+            if (R.bndCond[k] == 0) off = std::max(off, v / lim);                       // SlipLow
+        }
+        for (size_t k = 0; k < P.stl.size(); ++k) if (R.stCond[k] == 3) roll = std::max(roll, normOf(R.verrOut, P.stl[k].Fk) / lim);
+        for (size_t k = 0; k < P.col.size(); ++k) if (R.coCond[k] == 3) roll = std::max(roll, normOf(R.verrOut, P.col[k].Fk) / lim);
+        int nEnf = 0; for (auto& grp : P.uncond) nEnf += (int)grp.size();
+        for (size_t k = 0; k < P.uni.size(); ++k) { if (P.uni[k].type == 2 && R.uniCond[k] == 1) ++nEnf; if (P.uni[k].type != 0 && !P.uni[k].Fk.empty() && R.fricCond[k] == 3) ++nEnf; }
+        for (size_t k = 0; k < P.bnd.size(); ++k) if (R.bndCond[k] == 2) ++nEnf;
+        for (size_t k = 0; k < P.stl.size(); ++k) if (R.stCond[k] == 3) ++nEnf;
+        for (size_t k = 0; k < P.col.size(); ++k) if (R.coCond[k] == 3) ++nEnf;
+        if (std::getenv("C44_DEBUG")) std::printf("# comp nEnf=%d maxIt=%d tol=%g act=%g off=%g roll=%g slide=%g\n", nEnf, P.maxIters, P.tol, act, off, roll, slide);
+        // `active`/`rolling`: no theorem gives the factor - rows that are clamped (Sliding blocks still rotating on the cone) are
+        // outside the convergence test and move the enforced rows' residuals after their last update; measured max 15.6 in 16.6k.
+        vh::P("active_rows_enforced", key + ".complementarity.active", act, 50.0);
+        vh::P("rolling_rows_enforced", key + ".complementarity.rolling", roll, 50.0);
+        // PGS's convergence test looks at the *enforced* rows only (sum2enf).  When a sweep leaves no row enforced the norm is 0
+        // and it reports "converged" at once, whatever the clamped rows' residuals are: keyed separately.
+        const std::string rk = nEnf == 0 ? std::string("pgs.converged_no_enforced_rows.complementarity") : key + ".complementarity";
+        vh::P("released_rows_separate", rk + (nEnf == 0 ? "" : ".released"), off, 5.0);
+        vh::P("sliding_friction_along_slip", rk + (nEnf == 0 ? "" : ".sliding"), slide, 5.0);
+        if (nEnf == 0) vh::D("pgs.converged_no_enforced_rows");
+        vh::D("pgs.complementarity_judged"); ++g_compJudged;
+    }
     // only unconditional rows + converged  =>  [A+D] pi = rhs on the participating rows, to the convergence tolerance
     bool onlyUncond = P.uni.empty() && P.bnd.empty() && P.stl.empty() && P.col.empty();
     if (onlyUncond && R.conv && !P.part.empty()) {
         long double s2 = 0; for (int r : P.part) s2 += (long double)R.verrOut[r] * R.verrOut[r];
-        vh::P("bilateral_solves", key + ".bilateral", std::sqrt((double)s2 / P.part.size()) / P.tol, 20.0);   // theorem: the PRE-update residuals have RMS < tol; the final sweep moves them by at most a modest factor (measured max 1.34)
+        vh::P("bilateral_solves", key + ".bilateral", std::sqrt((double)s2 / P.part.size()) / P.tol, 5.0);   // theorem: the PRE-update residuals have RMS < tol; the final sweep moves them by at most a modest factor (measured max 1.34)
     }
 }
 
@@ -234,14 +281,14 @@ static void pgsBilateralRecord(const Prob& P0) {
     int m = P.m; Matrix A(m, m); Vector D(m), rhs(m), pi;
     for (int r = 0; r < m; ++r) { for (int c = 0; c < m; ++c) A(r, c) = P.a(r, c); D[r] = P.D[r]; rhs[r] = P.verr[r]; }
     bool conv = pgs.solveBilateral(mx(P.part), A, D, rhs, pi);
-    vh::Line in = vh::I("pgsbil"); encode(in, P); in.emit();
+    vh::Line in = vh::I("pgsbil"); encode(in, P); in.emit(); ++g_records;
     std::printf("O conv %d\n", conv ? 1 : 0);
     vh::Line op = vh::O("pi"); for (int r = 0; r < m; ++r) op.d(pi[r]); op.emit();
     vh::D(std::string("pgsbil") + (conv ? ".converged" : ".notconverged"));
     if (conv && !P.part.empty()) {
         long double s2 = 0;
         for (int r : P.part) { long double s = rhs[r]; for (int c : P.part) s -= (long double)P.a(r, c) * pi[c]; s -= (long double)P.D[r] * pi[r]; s2 += s * s; }
-        vh::P("bilateral_solves", "pgsbil.bilateral", std::sqrt((double)s2 / P.part.size()) / P.tol, 20.0);
+        vh::P("bilateral_solves", "pgsbil.bilateral", std::sqrt((double)s2 / P.part.size()) / P.tol, 5.0);
     }
 }
 
@@ -255,7 +302,7 @@ static void plusRecord(const Prob& P, const std::string& tag) {
                                     // by the contract is always accompanied by a keyed predicate failure
     vh::Line in = vh::I("plus"); encode(in, P); in.d(onlyUncond ? 1 : 0).d(ctol).d(scale);
     if (R.exc.empty()) for (double x : R.pi) in.d(x); else for (int r = 0; r < P.m; ++r) in.d(NAN);
-    in.emit();
+    in.emit(); ++g_records;
     std::puts("O plus 1");
     vh::D("plus." + tag + (R.exc.empty() ? "" : ".exception"));
     std::string key = "plus." + tag;
@@ -302,6 +349,41 @@ static void plusRecord(const Prob& P, const std::string& tag) {
         vh::D("plus.sliding_single_interval");
     }
     vh::P("friction_opposes_sliding", "plus.oppose.sliding_single_interval", oppose, 1e-5);
+    // ImpulseSolver::solve documents its return value as "converged".  PLUS declares `bool converged=false` and never assigns
+    // it: judged on unconditional-only problems, which PLUS solves to 1e-15 in one Newton step.
+    if (onlyUncond && !P.part.empty()) vh::P("return_value_reports_convergence", "plus.solve.return_value_never_true", R.conv ? 0 : 1, 0);
+    ++g_plusJudged;
+}
+
+// PLUS and a *bounded* row.  ImpulseSolver::solve takes Array_<BoundedRT>; PLUS puts a participating bounded row into its active
+// set, measures the bound violation (worstBoundedValue) and then has "//TODO: bounded": with a violated bound it falls through to
+// "release the worst friction" and indexes uniContact[worstFric=0] - out of range when there are no contacts.  Run in a forked
+// child (undefined behaviour must not take the harness down): one unconditional row, one bounded row whose unconstrained
+// solution lies outside its bounds.  value 1 = child crashed / hung / returned an impulse outside the bounds.
+static void plusBoundedChild(vh::Rng& g) {
+    Prob P; P.m = 2; P.uncond.push_back({0}); Bnd b; b.ix = 1; b.lb = -0.1; b.ub = 0.1; P.bnd.push_back(b); P.part = {0, 1};
+    double c = g.range(-0.3, 0.3);
+    P.A = {1.0, c, c, 1.0}; P.D = {0, 0}; P.piE = {0, 0}; P.verr = {g.range(-1, 1), g.coin() ? g.range(1, 2) : -g.range(1, 2)};   // unconstrained pi[1] ~ +-1..2
+    int fd[2]; if (pipe(fd) != 0) return;
+    std::fflush(stdout);
+    pid_t pid = fork(); double bad = 1; std::string how = "fork_failed";
+    if (pid == 0) {
+        close(fd[0]); alarm(5);
+        std::fclose(stdout);                                        // the child prints nothing into the record stream
+        PLUSImpulseSolver plus(1e-3); Run R = runSolve(plus, P);
+        double out[3] = {R.exc.empty() ? 0.0 : 1.0, R.exc.empty() ? R.pi[1] : 0.0, R.exc.empty() ? R.pi[0] : 0.0};
+        ssize_t w = write(fd[1], out, sizeof out); (void)w; _exit(0);
+    } else if (pid > 0) {
+        close(fd[1]); double out[3] = {0, 0, 0}; ssize_t n = read(fd[0], out, sizeof out); close(fd[0]);
+        int status = 0; waitpid(pid, &status, 0);
+        if (WIFSIGNALED(status)) how = WTERMSIG(status) == SIGALRM ? "hung" : "crashed";
+        else if (n != (ssize_t)sizeof out) how = "no_result";
+        else if (out[0] != 0) { how = "threw"; bad = 0; }           // a clean "not implemented" exception would be acceptable
+        else if (out[1] < b.lb - 1e-8 || out[1] > b.ub + 1e-8) how = "outside_bounds";
+        else { how = "ok"; bad = 0; }
+    }
+    vh::D("plus.boundedchild." + how);
+    vh::P("plus_bounded_row_honoured", "plus.bounded.violated_row_unimplemented", bad, 0);
 }
 
 static void replay() {
@@ -344,5 +426,21 @@ int main(int argc, char** argv) {
             plusRecord(P, "mixed");
         }
     }
+    // summary record: the driver counts the records it evaluated itself and must agree; the P lines are the floor (an
+    // always-throwing / never-converging regression cannot pass vacuously) and the forked PLUS bounded-row demonstration
+    {   // fixed two-row demonstration of "converged with no enforced rows": A=[[1,1],[1,2]], rhs=(1.05,10), both rows bounded to
+        // [-1,1].  The first sweep clamps both at +1 (SlipHigh), no row is enforced, PGS returns converged with pi=(1,1); row 0's
+        // residual is 1.05-1-1 = -0.95 < 0, i.e. the row reported SlipHigh wants to come *off* its bound (the solution is (0.05,1)).
+        Prob P; P.m = 2; P.A = {1, 1, 1, 2}; P.D = {0, 0}; P.piE = {0, 0}; P.verr = {1.05, 10}; P.part = {0, 1};
+        Bnd b0; b0.ix = 0; b0.lb = -1; b0.ub = 1; Bnd b1 = b0; b1.ix = 1; P.bnd = {b0, b1}; P.tol = 1e-6; P.maxIters = 100;
+        pgsRecord(P, "fixed");
+    }
+    vh::I("summary").emit();
+    std::printf("O summary %d\n", g_records);
+    double n = (double)args.n;
+    vh::P("coverage_floor", "c44.floor.pgs_judged", std::max(0.0, 0.35 * n - g_pgsJudged), 0);
+    vh::P("coverage_floor", "c44.floor.pgs_complementarity_judged", std::max(0.0, 0.08 * n - g_compJudged), 0);
+    vh::P("coverage_floor", "c44.floor.plus_judged", std::max(0.0, 0.25 * n - g_plusJudged), 0);
+    plusBoundedChild(g);
     return 0;
 }
